@@ -317,7 +317,7 @@ def run_coqchk(pid, props_rel):
             "log": txt[-3000:]}
 
 
-def coq_eval_bools(pid, preamble, terms, shard=400, timeout=900, jobs=8):
+def coq_eval_bools(pid, preamble, terms, shard=400, timeout=900, jobs=8, _depth=0):
     """Evaluate boolean Coq terms by vm_compute; returns list[bool|None] (None = coqc
     error for the shard) and a log."""
     gdir = os.path.join(GEN, pid)
@@ -360,7 +360,17 @@ def coq_eval_bools(pid, preamble, terms, shard=400, timeout=900, jobs=8):
     for k, (rc, out, err) in enumerate(results):
         vals = re.findall(r"^\s+= (true|false)\s*$", out, flags=re.M)
         n = len(shards[k])
-        if rc != 0 or len(vals) != n:
+        if rc == 124 and n > 1 and _depth < 3:
+            # the shard ran out of time (loaded machine or a few very heavy cases): that is
+            # a resource matter, not evidence about the model - evaluate it again in smaller
+            # pieces with a longer limit before declaring the correspondence broken
+            sub, sublog = coq_eval_bools(pid + f"/retry{_depth}_{k}", preamble, shards[k],
+                                         shard=max(1, (n + 7) // 8), timeout=timeout * 2,
+                                         jobs=jobs, _depth=_depth + 1)
+            logs.append(f"shard {k}: timed out after {timeout}s, re-evaluated in pieces"
+                        + (("\n" + sublog) if sublog else ""))
+            flat += sub
+        elif rc != 0 or len(vals) != n:
             logs.append(f"shard {k}: rc={rc} got {len(vals)}/{n}\n{(out + err)[-2000:]}")
             flat += [None] * n
         else:
